@@ -287,7 +287,7 @@ def _pipeline_once(ctx, cfg, masked_value, pstat, n_chunks, batch_idx, obs_sym, 
     batch = [pids[batch_idx]] if 0 <= batch_idx < len(pids) and len(pids) > 1 else []
 
     class Fixed:
-        def choice(self, n, size=None, replace=True):
+        def choice(self, n, size=None, replace=True, p=None, axis=0, shuffle=True):
             return list(range(n))
     holders = []
     for c in range(n_chunks):
